@@ -2,6 +2,7 @@ package harness
 
 import (
 	"fmt"
+	"strings"
 	"testing"
 
 	"github.com/jub0bs/cors"
@@ -21,7 +22,8 @@ type C08Case struct {
 }
 
 var c08Edits = []string{"pna", "pna-nocors", "both-pna", "credentialed", "star-origin", "insecure-origin", "psl-origin", "bad-origin", "bad-method", "bad-reqhdr", "bad-reshdr",
-	"star-reshdr", "maxage", "status", "untolerate-insecure", "untolerate-psl", "no-origins"}
+	"star-reshdr", "maxage", "status", "untolerate-insecure", "untolerate-psl", "no-origins",
+	"grow-origins+bad-method", "grow-origins+bad-reqhdr", "grow-origins+maxage", "grow-origins+status", "grow-origins+bad-origin"}
 
 // applyEdit plants one change into a copy of the current configuration.
 func applyEdit(c Cfg, edit string) Cfg {
@@ -65,6 +67,36 @@ func applyEdit(c Cfg, edit string) Cfg {
 		c.TolPSL = false
 	case "no-origins":
 		c.Origins = nil
+	}
+	if rest, ok := strings.CutPrefix(edit, "grow-origins+"); ok {
+		// valid additions next to the current origins (same host with another port / any port, a subdomain, a sibling scheme) ...
+		var extra []Str
+		for _, o := range c.Origins {
+			if p, ok := SplitPat(string(o)); ok && o != "*" {
+				extra = append(extra, Str(Pat{Scheme: p.Scheme, Wild: p.Wild, Host: p.Host, Port: "*"}.String()),
+					Str(Pat{Scheme: p.Scheme, Wild: p.Wild, Host: p.Host, Port: "4321"}.String()), Str(Pat{Scheme: p.Scheme, Wild: p.Wild, Host: p.Host, Port: "1"}.String()))
+				if !strings.HasPrefix(p.Host, "[") && !isDig(p.Host[len(p.Host)-1]) {
+					extra = append(extra, Str(Pat{Scheme: p.Scheme, Host: "extra." + p.Host, Port: p.Port}.String()))
+				}
+			}
+			if len(extra) >= 8 {
+				break
+			}
+		}
+		c.Origins = append(c.Origins, extra...)
+		// ... plus one violation elsewhere
+		switch rest {
+		case "bad-method":
+			c.Methods = append(append([]Str{}, c.Methods...), "CONNECT")
+		case "bad-reqhdr":
+			c.RequestHeaders = append(append([]Str{}, c.RequestHeaders...), "Host")
+		case "maxage":
+			c.MaxAge = -2
+		case "status":
+			c.Status = 300
+		case "bad-origin":
+			c.Origins = append(c.Origins, "https://example.com:0")
+		}
 	}
 	return c
 }
@@ -210,7 +242,7 @@ func c08Check(c C08Case, rec *Recorder) *Disc {
 
 func TestC08(t *testing.T) {
 	Prop[C08Case]{ID: "C08", Gen: c08Gen, Check: c08Check,
-		Rule: "generator: prior state in {passthrough, any valid configuration x debug on/off} x invalid configuration: either from the labelled-atom generator (exactly one planted violation, or many simultaneous violations; the other fields valid and unrelated to the prior state) or DERIVED from the middleware's own Config() by one of 17 edits (get-modify-set: switch on a PNA mode or credentials, add */insecure/public-suffix/malformed origin, bad method/header, bounds, drop a tolerate switch), judged invalid by a fresh NewMiddleware. " +
+		Rule: "generator: prior state in {passthrough, any valid configuration x debug on/off} x invalid configuration: either from the labelled-atom generator (exactly one planted violation, or many simultaneous violations; the other fields valid and unrelated to the prior state) or DERIVED from the middleware's own Config() by one of 22 edits (17 single edits; 5 compound ones that first GROW the origin list with valid neighbours of the current patterns - same host with another/any port, a subdomain - and then add one violation elsewhere) (get-modify-set: switch on a PNA mode or credentials, add */insecure/public-suffix/malformed origin, bad method/header, bounds, drop a tolerate switch), judged invalid by a fresh NewMiddleware. " +
 			"Oracle: Reconfigure returns non-nil; responses on Suite(prior) u Suite(repaired(invalid)), the Config() value and passthrough-ness are the same before and after. " +
 			"non-trivial = the 'repaired' variant of the invalid configuration (violations removed, valid fields kept) answers the suite differently from the prior state, i.e. a partial application would be visible; distinct by (prior, debug, invalid).",
 		Assumptions: []string{"debug mode is observed through the failing-preflight requests of the suite"}}.Run(t)
